@@ -117,11 +117,48 @@ theorem logged_in_direct_bytes {W O : Type} (env : Env W O) (w : W) (chunks : Li
   rw [Session.run_eq_runStream] at h ⊢
   exact Session.core_loggedIn_toPeer env w _ _ h
 
+/-- (5) An account whose stored hash verifies no password (a value that is not a well-formed bcrypt
+    hash: empty, plaintext, truncated) cannot be logged in to, whatever password is presented. -/
+theorem unverifiable_account_never_logs_in {W O : Type} (env : Env W O) (w : W) (chunks : List Bytes)
+    (h : ∀ t hh, Transaction.decode (Session.firstToken chunks.flatten) = .ok t →
+      env.accts (loginOf t) = some hh → env.verify hh (pwOf t) = false) :
+    (Session.run env w chunks).loggedIn = false := by
+  cases hl : (Session.run env w chunks).loggedIn with
+  | false => rfl
+  | true =>
+    obtain ⟨_, _, _, t, ht, hh, hacc, hver⟩ := (logged_in_iff env w chunks).mp hl
+    rw [h t hh ht hacc] at hver
+    cases hver
+
+/-- (6) After an account was renamed, a first transaction naming the OLD login is refused whatever
+    password it carries (the login no longer names an existing account) … -/
+theorem renamed_away_login_refused {W O : Type} (env : Env W O) (w : W) (chunks : List Bytes)
+    (old new newHash : Bytes) (hne : old ≠ new) (t : Transaction)
+    (ht : Transaction.decode (Session.firstToken chunks.flatten) = .ok t) (hold : loginOf t = old) :
+    (Session.run { env with accts := renameAcct env.accts old new newHash } w chunks).loggedIn = false := by
+  apply unverifiable_account_never_logs_in
+  intro u hh hu hacc
+  rw [ht] at hu
+  injection hu with hu
+  subst hu
+  simp only [hold, renameAcct_old env.accts old new newHash hne] at hacc
+  cases hacc
+
+/-- (6') … and the NEW login is what the account answers to: it authenticates exactly with the
+    password its (possibly re-hashed) entry verifies. -/
+theorem renamed_login_authenticates {W O : Type} (env : Env W O) (old new newHash : Bytes) (t : Transaction)
+    (hnew : loginOf t = new) :
+    Session.authenticate { env with accts := renameAcct env.accts old new newHash } t = env.verify newHash (pwOf t) := by
+  simp [Session.authenticate, hnew, renameAcct_new]
+
 /-! Obligation over the constants regenerated from /repo's source: the fallback account's name. -/
 
 theorem generated_guestAccount : Generated.stringConsts.lookup "GuestAccount" = some "guest" := by decide
 
 -- non-vacuity: concrete instances
+example : renameAcct (demoEnv BanGate.Store.empty [49] 0).accts [97, 98] [97, 99] [7] [97, 98] = none ∧
+    renameAcct (demoEnv BanGate.Store.empty [49] 0).accts [97, 98] [97, 99] [7] [97, 99] = some [7] ∧
+    renameAcct (demoEnv BanGate.Store.empty [49] 0).accts [97, 98] [97, 99] [7] guestLogin = some [] := by decide
 example : Session.authenticate (demoEnv BanGate.Store.empty [49] 0) demoWrongLogin = false := by decide
 example : demoWrongLogin.WFdec ∧ demoWrongLogin.encode.length ≤ maxTok := by
   unfold Transaction.WFdec Field.Scannable; decide
